@@ -17,20 +17,20 @@
 From Coq Require Import List NArith Bool Arith.
 Import ListNotations.
 
-Inductive unit_c13 := UValid (cp : N) | UBadByte.
+Inductive unit_c13 := UValid (cp : N) | UBadByte (b : N).
 
 (* utf8.RuneLen for a code point that came out of a well-formed sequence *)
 Definition rune_width_c13 (cp : N) : nat :=
   if (cp <? 128)%N then 1 else if (cp <? 2048)%N then 2 else if (cp <? 65536)%N then 3 else 4.
 
 Definition unit_width_c13 (u : unit_c13) : nat :=
-  match u with UValid cp => rune_width_c13 cp | UBadByte => 1 end.
+  match u with UValid cp => rune_width_c13 cp | UBadByte _ => 1 end.
 
 Definition rune_error_c13 : N := 65533.      (* U+FFFD *)
 Definition ellipsis_c13 : N := 8230.         (* "…" *)
 
 Definition unit_rune_c13 (u : unit_c13) : N :=
-  match u with UValid cp => cp | UBadByte => rune_error_c13 end.
+  match u with UValid cp => cp | UBadByte _ => rune_error_c13 end.
 
 (* len(s) *)
 Fixpoint byte_len_c13 (s : list unit_c13) : nat :=
@@ -41,24 +41,25 @@ Definition runes_c13 (s : list unit_c13) : list N := map unit_rune_c13 s.
 
 Definition max_payload_c13 : nat := 128.     (* push.MaxPayloadLength *)
 
-Inductive pres_c13 := POk (content : list N) | PPanicSlice (bound len : nat).
+(* the new value of data["content"], again as units: an untrimmed text keeps its bytes, string(runes[:128]) is well formed *)
+Inductive pres_c13 := POk (content : list unit_c13) | PPanicSlice (bound len : nat).
 
 (* runes[:n] *)
 Definition slice_to_c13 (runes : list N) (n : nat) : option (list N) :=
   if n <=? length runes then Some (firstn n runes) else None.
 
 (* [inner = true]: the code as it is; [inner = false]: the variant without the rune-length test
-   ("redundant with the byte-length test"). The result is the content as a list of runes. *)
+   ("redundant with the byte-length test"). *)
 Definition trim_c13 (inner : bool) (s : list unit_c13) : pres_c13 :=
   if max_payload_c13 <? byte_len_c13 s then
     let runes := runes_c13 s in
     if negb inner || (max_payload_c13 <? length runes) then
       match slice_to_c13 runes max_payload_c13 with
-      | Some p => POk (p ++ [ellipsis_c13])
+      | Some p => POk (map UValid p ++ [UValid ellipsis_c13])
       | None => PPanicSlice max_payload_c13 (length runes)
       end
-    else POk runes
-  else POk (runes_c13 s).
+    else POk s
+  else POk s.
 
 (* 65 Cyrillic letters: 130 bytes, 65 runes *)
 Definition witness_cyrillic_c13 : list unit_c13 := repeat (UValid 1078) 65.
